@@ -181,3 +181,7 @@ func Observe(label string, v uint64) {
 func ObserveBytes(label string, b []byte) {
 	Observations = append(Observations, fmt.Sprintf("%s=%x", label, b))
 }
+
+// BytesChoose returns arbitrary bytes whose length (0..max) is explored value by value
+// (concrete length, symbolic content): cheaper than BytesUpTo when offsets depend on it.
+func BytesChoose(n string, max int) []byte { return Bytes(n, Choose(n+".len", max+1)) }
